@@ -27,7 +27,16 @@ theorem memo_calls_exactly_once [DecidableEq α] [Inhabited α] (f : List α →
     (h : evolveFixed hist T (recorder f) r .memo [] = .ok (out, log)) :
     (log.map (·.1)).Nodup ∧
     ∀ n, n ∈ log.map (·.1) ↔ n ∈ occurring r ((init :: pureRun f r (T - 1) init).take (T - 1)) := by
-  sorry
+  rw [evolveFixed_eq (recorder f) .memo (by decide) hist init hlast T hT r []] at h
+  have hlog : (fixedLoop .memo (recorder f) r (T - 1) 1 init Caches.empty []).2.2 = log := by
+    injection h with h; exact (Prod.mk.inj h).2
+  obtain ⟨⟨i1, i2⟩, i3, _⟩ := fixedLoop_memo_calls f r h1 (T - 1) 1 init Caches.empty [] h2
+    (CachesOK_empty f r) MemoInv_nil
+  rw [hlog] at i1 i2
+  refine ⟨i1, fun n => ?_⟩
+  rw [i2 n, i3 n]
+  simp only [Caches.empty, List.map_nil, List.not_mem_nil, false_or]
+  rfl
 
 /-- **memoize='recursive' invokes the rule at most once per distinct neighbourhood**, only on
     neighbourhoods that occur, and within one step at most once per cell — hence never more often
@@ -40,7 +49,21 @@ theorem rec_calls_at_most_once [DecidableEq α] [Inhabited α] (f : List α → 
     (∀ n, n ∈ log.map (·.1) → n ∈ occurring r ((init :: pureRun f r (T - 1) init).take (T - 1))) ∧
     (∀ t, ((log.filter (fun e => e.2.2 = t)).map (·.2.1)).Nodup) ∧
     (∀ e ∈ log, e.2.1 < init.length ∧ 1 ≤ e.2.2 ∧ e.2.2 ≤ T - 1) := by
-  sorry
+  rw [evolveFixed_eq (recorder f) .recursive (by decide) hist init hlast T hT r []] at h
+  have hlog : (fixedLoop .recursive (recorder f) r (T - 1) 1 init Caches.empty []).2.2 = log := by
+    injection h with h; exact (Prod.mk.inj h).2
+  obtain ⟨new, a1, a2, a3, a4, _⟩ := fixedLoop_rec_calls f r h1 (T - 1) 1 init Caches.empty [] h2
+    (CachesOK_empty f r) RecInv_nil
+  rw [hlog, List.nil_append] at a1
+  rw [hlog] at a2
+  subst a1
+  refine ⟨a2.1, ?_, a4, ?_⟩
+  · intro n hn
+    obtain ⟨e, he, rfl⟩ := List.mem_map.mp hn
+    exact (a3 e he).1
+  · intro e he
+    obtain ⟨_, c2, c3, c4⟩ := a3 e he
+    exact ⟨c2, c3, by omega⟩
 
 /-- Never more calls than the unmemoized evolution makes (`N` per step), in either memo mode. -/
 theorem memo_calls_le_plain [DecidableEq α] [Inhabited α] (f : List α → α) (mode : Mode)
@@ -49,6 +72,19 @@ theorem memo_calls_le_plain [DecidableEq α] [Inhabited α] (f : List α → α)
     (h2 : r ≤ init.length) (out : List (List α)) (log : List (List α × Nat × Nat))
     (h : evolveFixed hist T (recorder f) r mode [] = .ok (out, log)) :
     log.length ≤ init.length * (T - 1) := by
-  sorry
+  have hmb : mode ≠ .bad := by rcases hm with rfl | rfl <;> decide
+  rw [evolveFixed_eq (recorder f) mode hmb hist init hlast T hT r []] at h
+  have hlog : (fixedLoop mode (recorder f) r (T - 1) 1 init Caches.empty []).2.2 = log := by
+    injection h with h; exact (Prod.mk.inj h).2
+  rcases hm with rfl | rfl
+  · obtain ⟨_, _, i4⟩ := fixedLoop_memo_calls f r h1 (T - 1) 1 init Caches.empty [] h2
+      (CachesOK_empty f r) MemoInv_nil
+    rw [hlog] at i4
+    simpa using i4
+  · obtain ⟨new, a1, _, _, _, a5⟩ := fixedLoop_rec_calls f r h1 (T - 1) 1 init Caches.empty [] h2
+      (CachesOK_empty f r) RecInv_nil
+    rw [hlog, List.nil_append] at a1
+    subst a1
+    exact a5
 
 end Cpl.C09
